@@ -30,7 +30,8 @@ def data_lines(path):
 
 def drop_deleted(text):
     # instances are written one per statement; a D instance ends at its terminating ';' + newline
-    return re.sub(r"(?m)^D#\d+=.*?;\n", "", text, flags=re.S)
+    # (its comments, if any, are written between the state letter and the '#')
+    return re.sub(r"(?m)^D\s*(?:/\*.*?\*/\s*)*#\d+=.*?;\n", "", text, flags=re.S)
 
 
 def script(tag, sc, bwd, fpath, cycles):
@@ -132,7 +133,7 @@ def family_segments(ctx, wd, cycles):
         for c in cs:
             tag = "G%s_%d" % (sha(k)[:8], c["n"])
             f = os.path.join(bwd, tag + "_in.p21")
-            text = c01.render_pop(cs[0]["schema"]["name"], c["pop"], "compact")
+            text = c01.render_pop(cs[0]["schema"]["name"], c["pop"], ("compact", "comments", "sepmix")[c["n"] % 3], c["n"])
             open(f, "w").write(text)
             sc = {"file": [{"id": i["id"]} for i in c["pop"]], "states": c["states"]}
             scripts.append((tag, script(tag, sc, bwd, f, cycles)))
@@ -175,7 +176,17 @@ def run(ctx):
         k = json.dumps(sc["file"])
         if k not in fcache:
             p = os.path.join(wd, "f%d.p21" % len(fcache))
-            open(p, "w").write(sess.file_text(sc["file"]))
+            text = sess.file_text(sc["file"])
+            if len(fcache) % 2 == 1:
+                # comments in front of instances: the library keeps them with the instance and writes them back, in
+                # exchange and working-session files alike (byte-for-byte re-save)
+                n = [0]
+
+                def com(m):
+                    n[0] += 1
+                    return "/* note %d ; ' */\n#" % n[0] if n[0] % 2 else "#"
+                text = re.sub(r"(?m)^#", com, text)
+            open(p, "w").write(text)
             fcache[k] = p
 
     def batch(bi, items):
